@@ -223,6 +223,21 @@ CHECKS = {
         note="Parsing is the projection's (Python json); a non-string value in a dedicated slot is accepted as itself or as its usual text.",
         technique="explicit TLA+ obligations evaluated by TLC on recorded results of the real code (trace validation)",
     ),
+    "C19": dict(
+        engine="QtlConfig",
+        level="model_checking",
+        text="QtlConfig.tla composes QtlCategory (Verdict), the regular-expression menu and QtlPattern (Format) into IniObligations: every "
+             "configured output (stdout, stderr, platform log = stderr, file) receives the line of every message that passes both filters, "
+             "once per configured writer and in order, and nothing else receives anything; OneLineObligations: the file holds the console "
+             "text minus ESC[...m colour codes (StripAnsi); and the handler-slot machine Install / Restore / Foreign with the action "
+             "properties RestoreReinstates, NewerForeignStays, InstallIdempotent, exhausted by TLC. Binding: one child process per generated "
+             "INI file / one-line argument set (stdout, stderr and the log file captured) and in-process install/restore/foreign histories "
+             "with the current Qt handler read after every step; TLC validates every recorded event.",
+        design="5/C19",
+        note="Pipes are not terminals, so the colour keys add no colour codes; the default pretty line is checked by shape; syslog / journal "
+             "/ HTTP keys are not compiled in.",
+        technique=TECH,
+    ),
 }
 
 NOT_APPLICABLE = {
